@@ -97,19 +97,59 @@ fn render(recs: &[Rec]) -> Vec<u8> {
     t
 }
 
-fn build(c: &Case12, dir: &Path) -> Distinfo {
-    if c.via_api {
+fn api_entry(r: &Rec, dir: &Path) -> Entry {
+    let sums: Vec<Checksum> = r.sums.iter().map(|(a, h)| Checksum::new(a.lib(), h.clone())).collect();
+    let name = OsStr::from_bytes(&r.name);
+    Entry::new(name, dir.join(name), sums, r.size)
+}
+
+/// Build the Distinfo under test.  Besides the two plain routes (all records
+/// through `insert()`, or the whole text through `from_bytes()`), two
+/// histories in which the object is *used while it grows*: the first half of
+/// the records is there, `probe` is looked up and verified (answers not
+/// compared - the final ones are), and the remaining records are inserted one
+/// at a time with further lookups in between; in the last route every step
+/// continues on a clone.  What the finished object answers may not depend on
+/// what it was asked on the way.
+fn build(ev: &mut Ev, c: &Case12, dir: &Path, probe: &Path) -> Distinfo {
+    let route = (c.rel.len() + c.recs.len() + c.disk.len()) % 4;
+    if route < 2 {
+        ev.count("history/plain");
+        return if c.via_api {
+            let mut di = if route == 0 { Distinfo::new() } else { Distinfo::default() };
+            for r in &c.recs {
+                di.insert(api_entry(r, dir));
+            }
+            di
+        } else {
+            Distinfo::from_bytes(&render(&c.recs))
+        };
+    }
+    ev.count(if route == 2 { "history/queried-while-growing" } else { "history/queried-while-growing-on-clones" });
+    let k = c.recs.len() / 2;
+    let mut di = if c.via_api {
         let mut di = Distinfo::new();
-        for r in &c.recs {
-            let sums: Vec<Checksum> =
-                r.sums.iter().map(|(a, h)| Checksum::new(a.lib(), h.clone())).collect();
-            let name = OsStr::from_bytes(&r.name);
-            di.insert(Entry::new(name, dir.join(name), sums, r.size));
+        for r in &c.recs[..k] {
+            di.insert(api_entry(r, dir));
         }
         di
     } else {
-        Distinfo::from_bytes(&render(&c.recs))
+        Distinfo::from_bytes(&render(&c.recs[..k]))
+    };
+    let ask = |di: &Distinfo| {
+        let _ = di.find_entry(probe);
+        let _ = di.verify_size(probe);
+        let _ = di.verify_checksum(probe, ALGS[0].lib());
+    };
+    ask(&di);
+    for r in &c.recs[k..] {
+        if route == 3 {
+            di = di.clone();
+        }
+        di.insert(api_entry(r, dir));
+        ask(&di);
     }
+    di
 }
 
 enum ExpSize {
@@ -246,7 +286,7 @@ fn observe(ev: &mut Ev, dir: &Path, c: &Case12) -> CaseResult {
     }
 
     // ---- observations ----
-    let di = build(c, dir);
+    let di = build(ev, c, dir, &path);
     let entry: Option<&Entry> = match di.find_entry(&path) {
         Ok(e) => Some(e),
         Err(DistinfoError::NotFound) => None,
@@ -712,6 +752,9 @@ pub fn run(cx: &mut Cx) {
     for k in [
         "built/api",
         "built/parsed",
+        "history/plain",
+        "history/queried-while-growing",
+        "history/queried-while-growing-on-clones",
         "nesting/0",
         "nesting/1",
         "nesting/2",
